@@ -9,7 +9,7 @@ import (
 // The 41-bit timestamp field holds (ts - twepoch) ticks of 2^20 ns; readings beyond its
 // range (about year 2085) are outside the claim.
 func verifC12Clock() {
-	verifrt.ClockRange(1325376000000000000, (twepoch+(1<<41))<<20)
+	verifrt.ClockRange(1356998400000000000, (twepoch+(1<<41))<<20)
 }
 
 // One step of NewGUID from ANY factory state and any clock reading:
